@@ -77,6 +77,22 @@ class ScriptExhausted(Exception):
   """The real executor invoked a body more often than the model did."""
 
 
+class _OwnRange(object):
+  """0 <= x <= 10, marginal within [0, 2] and [8, 10] - the limits of the in_range validator used elsewhere"""
+
+  def __call__(self, value):
+    return value is not None and 0 <= value <= 10
+
+  def is_marginal(self, value):
+    return value is not None and (0 <= value <= 2 or 8 <= value <= 10)
+
+  def __str__(self):
+    return 'own range 0..10'
+
+  def __deepcopy__(self, memo):
+    return self
+
+
 def _raising_validator(value):
   raise ValidatorError('validator raises')
 
@@ -332,8 +348,15 @@ def build_phase(ctx, node, plugcls, timeout_s=None):
   ph = htf.PhaseOptions(**kw)(fn)
   mk = node.get('mk', 'none')
   if mk == 'scalar':
-    ph = htf.measures(htf.Measurement('m').in_range(
-        0, 10, marginal_minimum=2, marginal_maximum=8))(ph)
+    import zlib
+    h = zlib.crc32(repr(('mk', node['name'], sorted((k, repr(v)) for k, v in ctx.script.items()))).encode())
+    if h % 2:
+      # the same limits as a validator object of the test author's own (callable + is_marginal, nothing else),
+      # on a phase derived with with_args(): a derived phase validates like the one it was derived from
+      ph = htf.measures(htf.Measurement('m').with_validator(_OwnRange()))(ph).with_args(vf_label='derived')
+    else:
+      ph = htf.measures(htf.Measurement('m').in_range(
+          0, 10, marginal_minimum=2, marginal_maximum=8))(ph)
   elif mk == 'dimraise':
     ph = htf.measures(htf.Measurement('dv').with_dimensions('x').with_validator(
         _raising_validator))(ph)
